@@ -443,6 +443,26 @@ fn machine(host: &mut Host, name: &str, op: &Value) -> Result<Option<Value>, Str
                 Err(e) => Ok(Some(json!({"loaded": false, "err": format!("{e}")}))),
             }
         }
+        "rewind" => {
+            // save, keep running the *same* runtime for d more instructions, then load the bundle in place:
+            // a restore into a used machine must give the state a restore into a fresh one gives
+            let path = s(op, 2)?.to_string();
+            let d = u(op, 3)? as usize;
+            let rt = mach(host, slot)?;
+            rt.save_snapshot(std::path::Path::new(&path))
+                .map_err(|e| format!("save_snapshot: {e}"))?;
+            for _ in 0..d {
+                if rt.step(1).is_err() {
+                    break;
+                }
+            }
+            let res = rt.load_snapshot(std::path::Path::new(&path));
+            let _ = std::fs::remove_file(&path);
+            match res {
+                Ok(()) => Ok(Some(json!({"loaded": true}))),
+                Err(e) => Ok(Some(json!({"loaded": false, "err": format!("{e}")}))),
+            }
+        }
         "obs" => {
             let watch = parse_watch(op.get(2));
             let rt = mach(host, slot)?;
